@@ -352,6 +352,77 @@ def r15_3(ctx: Ctx, rep: Report) -> None:
             rep.ok(f"{f.qualname}", "differing sequence numbers decide first: self.sequence < other.sequence", where=where(f))
     rep.floor(4, "__lt__ of Ace, Remark, AceGroup, Acl")
     r03_3(ctx, rep, pairs=SIBLINGS[2:], rid="R15.3")
+    steps_agree(ctx, rep)
+    block_tie_is_numeric(ctx, rep)
+
+
+def block_tie_is_numeric(ctx: Ctx, rep: Report, rid: str = "R15.17") -> None:
+    """Two blocks with the same own number (0: blocks that `group()` has just made from a flat, numbered list) are not
+    ordered by their rendered text alone: the text begins with the decimal number of the first member, and as text
+    '100 remark' < '80 remark' - sort() after resequence() then moves the later block in front of the earlier one."""
+    from .common import single_env
+
+    rep.rule(rid)
+    f = ctx.prog.find_func("AceGroup.__lt__")
+    if f is None:
+        rep.note(f"{rid} AceGroup.__lt__ not present")
+        return
+    other = f.params[1] if len(f.params) > 1 else "other"
+    env = single_env(f.node)
+    n = 0
+    for br in [x for x in own_nodes(f.node) if isinstance(x, ast.If) and isinstance(x.test, ast.Call) and src(x.test.func) == "isinstance" and len(x.test.args) == 2 and src(x.test.args[0]) == other and "AceGroup" in src(x.test.args[1])]:
+        for r in [y for b in br.body for y in ast.walk(b) if isinstance(y, ast.Return) and y.value is not None]:
+            v = deep_resolve(r.value, env)
+            if not (isinstance(v, ast.Compare) and len(v.ops) == 1):
+                continue
+            n += 1
+            rep.instance()
+            sides = [v.left, v.comparators[0]]
+            texty = lambda e: (isinstance(e, ast.Call) and src(e.func) == "str" and len(e.args) == 1 and src(e.args[0]) in ("self", other)) or (isinstance(e, ast.Attribute) and e.attr.lstrip("_") == "line" and src(e.value) in ("self", other))  # noqa: E731
+            if all(texty(e) for e in sides):
+                rep.violation(f.qualname, snippet(r, 60), "blocks with equal own numbers are ordered by their rendered text only, which begins with the decimal sequence number of the first member: '100 remark ...' < '80 remark ...', so after resequence() the blocks that group() made from a flat list (own number 0) are sorted out of their numbered order", where(f, r), inp="acl = Acl(text); acl.resequence(80, 20); acl.group('=== '); acl.sort()")
+            elif any(isinstance(z, ast.Attribute) and z.attr.lstrip("_") in ("sequence", "items") for e in sides for z in ast.walk(e)):
+                rep.ok(f"{f.qualname}: {snippet(r, 50)}", "blocks with equal own numbers are compared through their members / the members' numbers before any text", where=where(f, r))
+            else:
+                rep.note(f"{rid} {snippet(r, 60)}: neither a text comparison nor a comparison of members - not judged")
+    if n == 0:
+        rep.note(f"{rid} no comparison of two blocks recognised in AceGroup.__lt__ - not judged")
+
+
+def steps_agree(ctx: Ctx, rep: Report, rid: str = "R15.16") -> None:
+    """The order of two entries without (or with equal) numbers is a chain of steps, one per field; the source step and the
+    destination step of the same kind (address, port) are the same step modulo src<->dst: a step that is taken under a
+    different condition on one side only (`and` on one, `or` on the other) orders by that side's field when the other
+    would not - sort() then departs from the documented field order."""
+    import re as _re
+
+    rep.rule(rid)
+    f = ctx.prog.find_func("Ace.__lt__")
+    if f is None:
+        rep.note(f"{rid} Ace.__lt__ not present")
+        return
+    side = lambda t: {m for m in ("src", "dst") if _re.search(r"\b_?" + m + r"(addr|port)\b", t)}  # noqa: E731
+    steps: Dict[str, List[ast.If]] = {"src": [], "dst": []}
+    for x in own_nodes(f.node):
+        if isinstance(x, ast.If):
+            sd = side(ast.unparse(x.test))
+            if len(sd) == 1:
+                steps[sd.pop()].append(x)
+    rep.instance()
+    if not steps["src"] and not steps["dst"]:
+        rep.note(f"{rid} no per-side steps in Ace.__lt__ (merged into a helper?) - not judged")
+        return
+    norm = lambda n: _re.sub(r"src(?=addr|port)", "dst", ast.unparse(n))  # noqa: E731
+    src_t = sorted(norm(x) for x in steps["src"])
+    dst_t = sorted(norm(x) for x in steps["dst"])
+    if src_t == dst_t:
+        rep.ok("Ace.__lt__", f"{len(src_t)} source steps and {len(dst_t)} destination steps agree modulo src<->dst", where=where(f))
+    else:
+        only_s = [x for x in steps["src"] if norm(x) not in dst_t]
+        only_d = [x for x in steps["dst"] if norm(x) not in src_t]
+        at = (only_s or only_d)[0]
+        other_ = (only_d or only_s)[0] if (only_d and only_s) else None
+        rep.violation("Ace.__lt__", f"if {snippet(at.test, 60)}" + (f"  <>  if {snippet(other_.test, 60)}" if other_ is not None else ""), "the source and the destination step of the comparison disagree (after src<->dst renaming): one side's field decides the order under a condition the other side does not use, so entries are ordered by a later field while an earlier one differs", where(f, at), inp="two unnumbered entries of which exactly one has a port on that side; acl.sort()")
 
 
 def ungroup_forgets_grouping(ctx: Ctx, rep: Report, rid: str = "R15.9") -> None:
